@@ -22,7 +22,7 @@ RULE_TEXT = ('runs = seeded random: workload A = (text over an alphabet with 2-/
              'text from literal / file / program). Non-trivial = at least two value-returning accesses (A) or a complete '
              'family (B) were compared; distinct = (workload, source kind, transformer chain, access sequence, buffer '
              'class relative to the text length, character classes present).')
-REACH_PROBES = ['C_one_transformer_many_texts', 'B_actual_from_a_program_that_varies', 'literal_as_here_document', 'A_literal', 'A_file', 'A_program', 'A_varying_program', 'A_freeze_then_access', 'A_access_then_freeze',
+REACH_PROBES = ['C_one_transformer_many_texts', 'C_one_equals_matcher_many_texts', 'B_actual_from_a_program_that_varies', 'literal_as_here_document', 'A_literal', 'A_file', 'A_program', 'A_varying_program', 'A_freeze_then_access', 'A_access_then_freeze',
                 'A_partial_lines', 'A_text_longer_than_buffer', 'A_text_fits_buffer',
                 'A_multibyte', 'A_cr', 'A_unicode_line_separators', 'A_no_final_newline', 'A_empty_text',
                 'A_family_line_based', 'A_family_cached', 'A_run_transformer', 'A_write_to_spooled', 'A_as_file',
@@ -160,9 +160,33 @@ def make_plan(i, master, tier):
     return plan_a(seed, tier, g)
 
 
+def plan_c_equals(seed, tier, g):
+    """Workload C with ONE `equals -contents-of FILE` matcher object applied to several texts in turn: the texts are held
+    in memory when compared (transformed, then cached for `&&`), the expected text is on disk and has several lines;
+    some texts are much shorter than the expected one, one equals it, some are longer.  What the matcher has read of
+    the expected text for one file is no business of the next."""
+    line = lambda: ''.join(g.choice('abcxyz .') for _ in range(g.randint(30, 70))) + '\n'  # noqa: E731
+    E = ''.join(line() for _ in range(g.randint(3, 6)))
+    texts = []
+    n_files = g.randint(2, 4)
+    for _ in range(n_files):
+        kind = g.choice(['short', 'short', 'equal', 'longer', 'prefix'])
+        texts.append({'short': E.split('\n')[0][:10] + '\n', 'equal': E, 'longer': E + line(),
+                      'prefix': ''.join(E.splitlines(True)[:2])}[kind])
+    if g.random() < 0.7 and E not in texts:
+        texts[g.randrange(1, n_files)] = E  # (never the first file alone: a shorter text is tested before it)
+    # the transformer decides how the text is held when it is compared (the output of `filter` is held in memory)
+    chain = g.choice([['filter_all'], ['filter_all_contents'], ['upper'], ['filter_all', 'upper'], ['identity']])
+    return {'format': 1, 'property': PROPERTY, 'engine': 'c14', 'run_seed': seed, 'tier': tier, 'workload': 'C',
+            'knobs': {'mem_buff_size': g.choice([1, 64, 8192, 8192])}, 'entry': 'cli', 'texts': texts, 'chain': chain,
+            'k': 0, 'classes': [], 'sweep': False, 'equals_expected': _apply_chain(chain, E)}
+
+
 def plan_c(seed, tier, g):
     """Workload C: ONE transformer (and matcher) object consumes several texts in turn (files of a directory under a
     quantifier): the value of each transformed text must not depend on which texts were consumed before it."""
+    if kernel.stream(seed, 'c-variant').random() < 0.3:
+        return plan_c_equals(seed, tier, g)
     classes = g.choice([[], [], ['multi'], ['seps']])
     alpha = list(SAFE) + (MULTI if 'multi' in classes else []) + (SEPS if 'seps' in classes else [])
     n_files = g.randint(2, 4)
@@ -655,6 +679,9 @@ def execute_c(plan, scratch):
         w.write('home/d/f%d.txt' % i, data=t.encode('utf-8'))
     procs = {'cat': {'cat': True, 'exit': 0}, 'atc': {'exit': 0}}
     M = 'num-lines == %d' % plan['k']
+    if plan.get('equals_expected') is not None:
+        w.write('home/expected.txt', data=plan['equals_expected'].encode('utf-8'))
+        M = '( ! is-empty && equals -contents-of -rel-home expected.txt )'
     setup = '[setup]\ndef text-transformer TT = %s\n' % _chain_syntax(plan['chain'])
     forms = {'every': 'dir-contents -rel-home d : every file : contents -transformed-by TT ' + M,
              'any': 'dir-contents -rel-home d : any file : contents -transformed-by TT ' + M}
@@ -676,12 +703,20 @@ def execute_c(plan, scratch):
         events.append(sim.events)
         sim_seconds += sim.clock.advanced
     hist = {'results': results, 'forms': forms, 'digest': kernel.digest(events), 'sim_seconds': sim_seconds,
-            'probes': {'C_one_transformer_many_texts': 1}, 'armed': {}, 'fired': {}}
+            'probes': dict({'C_one_transformer_many_texts': 1}, **({'C_one_equals_matcher_many_texts': 1} if plan.get('equals_expected') is not None else {})),
+            'armed': {}, 'fired': {}}
     w.destroy()
     return hist
 
 
 def expected_c(plan):
+    if plan.get('equals_expected') is not None:
+        per = [_apply_chain(plan['chain'], translate(t)) == plan['equals_expected'] for t in plan['texts']]
+        exp = {'every': all(per), 'any': any(per)}
+        for i, v in enumerate(per):
+            exp['single%d' % i] = v
+            exp['selection%d' % i] = v
+        return exp
     per = [len(ref_lines(_apply_chain(plan['chain'], translate(t)))) == plan['k'] for t in plan['texts']]
     exp = {'every': all(per), 'any': any(per)}
     for i, v in enumerate(per):
